@@ -301,8 +301,10 @@ def gen_sqlite_date():
     out = ('(* %s:%d SQLiteDateConverter.sql2py (template) *)\nDefinition sqlite_date_sql2py (val : str) : dbres date_v :=\n'
            '  match strptime_ymd (firstn 10 val) with\n  | Some d => RVal d\n  | None => RStr val\n  end.\n' % (SQ, lineno))
     fdef, src, lineno = load(SQ, 'SQLiteDateConverter.py2sql')
-    expect([ast.unparse(s) for s in body_of(fdef)] == ["return val.strftime('%Y-%m-%d')"], 'SQLiteDateConverter.py2sql changed')
-    out += '(* %s:%d SQLiteDateConverter.py2sql *)\nDefinition sqlite_date_py2sql (val : date_v) : str := strftime_ymd val.\n' % (SQ, lineno)
+    forms = {"return val.strftime('%Y-%m-%d')": 'strftime_ymd val', 'return val.isoformat()': 'iso_date val'}
+    texts = [ast.unparse(s) for s in body_of(fdef)]
+    expect(len(texts) == 1 and texts[0] in forms, 'SQLiteDateConverter.py2sql changed: %r' % texts)
+    out += '(* %s:%d SQLiteDateConverter.py2sql: `%s` *)\nDefinition sqlite_date_py2sql (val : date_v) : str := %s.\n' % (SQ, lineno, texts[0], forms[texts[0]])
     return out
 
 
